@@ -162,9 +162,9 @@ Lemma NoDup_app_r {A} (a b : list A) : NoDup (a ++ b) -> NoDup b.
 Proof. induction a as [|x a IH]; cbn; intros H; [exact H|]. inversion H; auto. Qed.
 
 (* ---------- scatter preserves the peers of every role ---------- *)
-Theorem scatter_preserves_roles stores st grp guard r o :
+Theorem scatter_preserves_roles stores st grp guard rule_ok r o :
   NoDup (stores_of (peers r)) ->
-  In o (scatter_outcomes stores st grp guard r) ->
+  In o (scatter_outcomes stores st grp guard rule_ok r) ->
   o_clash o = false
   /\ Permutation (map snd (o_targets o)) (map p_role (peers r))
   /\ NoDup (map fst (o_targets o))
@@ -334,26 +334,34 @@ Theorem more_filters_only_remove_leader flags stores r (extra : store -> bool) d
 Proof. intros H. apply filter_In in H as [H _]. exact H. Qed.
 
 (* ---------- the scatter leader ---------- *)
-(* whenever some target store without an engine label accepts leaders, the store chosen for the leader is a target store
-   without an engine label that accepts leaders (0 = "none" is not chosen then) *)
-Theorem scatter_leader_accepts_leaders stores grp ldr targets l :
-  In l (leader_choices stores grp ldr targets) ->
-  accepting stores (ordinary_targets stores targets) <> [] ->
-  In l (map fst targets) /\ exists s, find_store stores l = Some s /\ s_reject s = false /\ lv_empty (engine_of s) = true.
+(* whenever some target qualifies (store without engine label, target peer not a learner, store passes the leaderTarget row of
+   StoreStateFilter, a leader / voter rule selects it), the store chosen for the leader is such a target: in particular it is up,
+   not down, connected, not busy, leader transfer not paused, no reject-leader label (0 = "none" is not chosen then) *)
+Theorem scatter_leader_accepts_leaders stores grp ldr cur rule_ok targets l :
+  In l (leader_choices stores grp ldr cur rule_ok targets) ->
+  leader_candidates stores rule_ok targets <> [] ->
+  exists ro s, In (l, ro) targets /\ ro <> Learner /\ find_store stores l = Some s /\ lv_empty (engine_of s) = true
+               /\ up_store s /\ s_pause s = false /\ s_reject s = false /\ rule_ok l = true.
 Proof.
   unfold leader_choices. intros H Hne.
-  destruct (accepting stores (ordinary_targets stores targets)) as [|x acc] eqn:E; [contradiction|].
-  apply filter_In in H as [H _]. rewrite <- E in H. unfold accepting in H. apply filter_In in H as [Ho Hr].
-  unfold ordinary_targets in Ho. apply filter_In in Ho as [Hin He].
-  split; [exact Hin|]. destruct (find_store stores l) as [s|]; [|discriminate].
-  exists s. split; [reflexivity|]. split; [apply negb_true_iff; exact Hr|exact He].
+  destruct (leader_candidates stores rule_ok targets) as [|x cands] eqn:E; [contradiction|].
+  unfold least_loaded in H. apply filter_In in H as [H _]. rewrite <- E in H.
+  unfold leader_candidates in H. apply in_map_iff in H as ([l' ro] & Hl & H). cbn in Hl. subst l'.
+  apply filter_In in H as [Hin H]. cbn [fst snd] in H.
+  destruct (find_store stores l) as [s|]; [|discriminate].
+  apply andb_true_iff in H as [H Hr]. apply andb_true_iff in H as [H Hf]. apply andb_true_iff in H as [He Hro].
+  destruct (leader_filter_facts s Hf) as (U & P & Rj).
+  exists ro, s. split; [exact Hin|]. split; [intros ->; cbn in Hro; discriminate|]. split; [reflexivity|].
+  split; [exact He|]. split; [exact U|]. split; [exact P|]. split; [exact Rj|exact Hr].
 Qed.
 
-(* regression: reject-leader on store 1; targets {1, 2}; leader counters empty: the leader goes to store 2, never to 1
-   (before the fix both were candidates) *)
+(* regression: reject-leader on store 1, leader transfer paused (evict-leader) on store 3; targets {1, 2, 3}; the leader goes to
+   store 2 - before the fixes store 1 and store 3 were candidates as well *)
 Lemma leader_reject_regression :
   leader_choices [Store 1 SUp false false false false false false false false false true [];
-                  Store 2 SUp false false false false false false false false false false []] 1 [] [(1, Voter); (2, Voter)] = [2].
+                  Store 2 SUp false false false false false false false false false false [];
+                  Store 3 SUp false false false false false false false false true false []] 1 [] 1 (fun _ => true)
+                 [(1, Voter); (2, Voter); (3, Voter)] = [2].
 Proof. vm_compute. reflexivity. Qed.
 
 (* ---------- a peer move keeps the number of peers of every role and one peer per store ---------- *)
